@@ -2,7 +2,7 @@
 from props import termgen as tg
 
 ID = 'C09'
-GENERATORS = []
+GENERATORS = ['gen_font']     # Model/AnsiTok.v loads `CTerm:Font:` strings with C17's Model/Font.v, which needs Gen/FontConsts.v
 COQ_TARGETS = ['Props/C09.vo', 'Run/RunC09.vo']
 PROPS_MODULE = 'Props.C09'
 THEOREMS = ['c09_stream', 'origin_never_margins', 'fixed_grid_size', 'ansi_char_keeps_cursor']
